@@ -1525,9 +1525,9 @@ class TT():
                 if self.__N[i] != self.__M[i]:
                     raise ShapeMismatch(
                         'Only quadratic TTM can be tranformed to QTT.')
-                if self.__N[i] == mode_size**int(math.log(self.N[i], mode_size)):
+                if self.__N[i] == mode_size**int(round(math.log(self.N[i], mode_size))):
                     shape_new += [(mode_size, mode_size)] * \
-                        int(math.log(self.__N[i], mode_size))
+                        int(round(math.log(self.__N[i], mode_size)))
                 else:
                     raise ShapeMismatch('Reshaping error: check if the dimensions are powers of the desired mode size:\r\ncore size '+str(
                         list(self.cores[i].shape))+' cannot be reshaped.')
